@@ -451,6 +451,16 @@ def monitor_history(case, cops, outs):
                 continue
             served = out.startswith(("S:", "P")) or "REMOTE_USER-SET" in out
             if out.startswith("E"): return (qi - 1, "handler returned %s (neither served nor 401/400)" % out)
+            if r["method"] == b"digest" and w.cache is not None:
+                # mod_auth_digest_get() caches the H(A1) the backend returns on the first lookup for (rule, user), whether or not the response
+                # then matches: from that moment, for max-age, the cache stands in for the backend.  Any digest request naming a user the
+                # backend knows counts as such a lookup here (a few of them are refused before the lookup: this only makes the monitor lenient)
+                dpv = rfc_digest_params(o["auth"] or b"")
+                if dpv and b"username" in dpv and b"username*" not in dpv:
+                    pv = find_pw(w.db, dpv[b"username"])
+                    if pv is not None:
+                        kv = (ri, dpv[b"username"], md5hex(dpv[b"username"] + b":" + r["realm"] + b":" + pv), dpv.get(b"algorithm", b"MD5").lower())
+                        if kv not in vouched or w.mono - vouched[kv] > w.cache + 8: vouched[kv] = w.mono
             if not served: continue
             if out == "P": return (qi - 1, "path %r is covered by rule %d (%r) but was served without authentication" % (o["path"], ri, r["path"]))
             if "REMOTE_USER-SET" in out: return (qi - 1, "REMOTE_USER exported on a refused request: %s" % out)
@@ -569,8 +579,8 @@ def verdict(exe, model, case):
     if rc_i != 0 or not out_i: return ("crash", err_i[-1500:], lines[0], mlines[0] if mlines else "", out_i, out_m)
     cops, outs, cache = parsed[0]
     mon = monitor_history(case, cops, outs)
-    ci = " ".join(canon(t) for t in outs) + " cache=%s" % cache
-    cm = out_m[0] if out_m else ""
+    ci = (" ".join(canon(t) for t in outs) + " cache=%s" % cache).strip()
+    cm = (out_m[0] if out_m else "").strip()
     agree = (ci == cm) or " U " in (" " + cm + " ")
     return ("monitor" if mon else ("disagree" if not agree else "ok"), mon, lines[0], mlines[0], ci, cm)
 
@@ -603,8 +613,8 @@ def run(ctx):
         served += sum(1 for t in outs if t.startswith("S:")); refused += sum(1 for t in outs if t.startswith(("401", "400")))
         mon = monitor_history(c, cops, outs)
         if mon: mon_hits.append((i, mon))
-        ci = " ".join(canon(t) for t in outs) + " cache=%s" % cache
-        cm = out_m[i] if i < len(out_m) else "<none>"
+        ci = (" ".join(canon(t) for t in outs) + " cache=%s" % cache).strip()
+        cm = (out_m[i] if i < len(out_m) else "<none>").strip()
         if " U " in (" " + cm + " "): unmod += 1; continue
         if ci != cm: dis.append(i)
     ctx.cov["distribution"] = dict(requests_by_kind=dist, served=served, refused=refused, histories=len(cases), unmodelled_histories=unmod)
